@@ -102,9 +102,9 @@ func runHistory(rng *hx.Rng, meta *hx.Meta, flavour string, max, nops int, scrip
 	bs := boundaries(step, shards)
 	ids := map[interface{}]int{}
 	next := 0
-	var held []interface{}       // buffers the client owns (from Get or foreign), may Put
-	putCount := map[int]int{}    // id -> number of Puts
-	hitCount := map[int]int{}    // id -> number of times handed out after a Put
+	var held []interface{}    // buffers the client owns (from Get or foreign), may Put
+	putCount := map[int]int{} // id -> number of Puts
+	hitCount := map[int]int{} // id -> number of times handed out after a Put
 	idOf := func(k interface{}) int {
 		if id, ok := ids[k]; ok {
 			return id
